@@ -129,6 +129,9 @@ def judge(ctx, case):
         routes = {}
         if fam == 'bytes':
             routes['kw'] = lambda: cls(bytes=pv)
+            # the value handed over in a writable buffer that the caller goes on to change
+            routes['kw-bytearray-changed-afterwards'] = lambda: _then_scribble(bytearray(pv), lambda b: cls(bytes=b))
+            routes['auto-memoryview-changed-afterwards'] = lambda: _then_scribble(bytearray(pv), lambda b: cls(memoryview(b)))
             routes['prop+len'] = lambda: _assign(mcls(), f'bytes{n}', pv)
             routes['Dtype(name,n).build'] = lambda: Dtype('bytes', n).build(pv)
             routes["Dtype('namen').build"] = lambda: Dtype(f'bytes{n}').build(pv)
@@ -234,6 +237,13 @@ def judge(ctx, case):
         elif fam not in ('bits',) and not K.same_value(expv, pv if fam not in ('hex', 'oct', 'bin') else K.tidy(pv, '')):
             ctx.mismatch(f'C02|model|{fam}|self-check', case, f'{expv!r} vs {pv!r}')
     ctx.state(name, n, exp if nbits < 80 else hash(exp))
+
+
+def _then_scribble(buf, make):
+    o = make(buf)
+    for i in range(len(buf)):
+        buf[i] ^= 0xff
+    return o
 
 
 def _mutated(o):
